@@ -60,24 +60,57 @@ func (t *recTransport) RoundTrip(req *http.Request) (*http.Response, error) {
 	return resp, nil
 }
 
+// replay: variant forced
+var forcedVariant = -1
+
 var opKinds = []string{"mresolve", "mfetchref", "tag", "pushref", "bresolve", "bfetchref"}
 
-func runOp(base registry.Reference, op string, plain bool, in string) []*http.Request {
+// runOp: variant bit 0-1 = referrers capability (0 supported, 1 unsupported, 2/3 unknown: the
+// manifest has no subject, so every state must emit the same single PUT -- the unknown/unsupported
+// states go through the second push call site of pushWithIndexing), bit 2 = call the Repository
+// wrapper instead of the manifest store.
+func runOp(base registry.Reference, op string, plain bool, in string, variant int) []*http.Request {
 	t := &recTransport{}
 	repo := &remote.Repository{Reference: base, PlainHTTP: plain, Client: &http.Client{Transport: t}}
-	repo.SetReferrersCapability(true) // no client-side referrers indexing: pushes are a single PUT
+	switch variant & 3 {
+	case 0:
+		repo.SetReferrersCapability(true)
+	case 1:
+		repo.SetReferrersCapability(false)
+	}
+	wrapper := variant&4 != 0
+	run.Count(fmt.Sprintf("op_variant_%d", variant&7))
 	ctx := context.Background()
 	switch op {
 	case "mresolve":
-		repo.Manifests().Resolve(ctx, in)
+		if wrapper {
+			repo.Resolve(ctx, in)
+		} else {
+			repo.Manifests().Resolve(ctx, in)
+		}
 	case "mfetchref":
-		if _, rc, err := repo.Manifests().FetchReference(ctx, in); err == nil {
+		var rc io.ReadCloser
+		var err error
+		if wrapper {
+			_, rc, err = repo.FetchReference(ctx, in)
+		} else {
+			_, rc, err = repo.Manifests().FetchReference(ctx, in)
+		}
+		if err == nil {
 			rc.Close()
 		}
 	case "tag":
-		repo.Manifests().Tag(ctx, opManifestDesc, in)
+		if wrapper {
+			repo.Tag(ctx, opManifestDesc, in)
+		} else {
+			repo.Manifests().Tag(ctx, opManifestDesc, in)
+		}
 	case "pushref":
-		repo.Manifests().PushReference(ctx, opManifestDesc, bytes.NewReader(opManifest), in)
+		if wrapper {
+			repo.PushReference(ctx, opManifestDesc, bytes.NewReader(opManifest), in)
+		} else {
+			repo.Manifests().PushReference(ctx, opManifestDesc, bytes.NewReader(opManifest), in)
+		}
 	case "bresolve":
 		repo.Blobs().Resolve(ctx, in)
 	case "bfetchref":
@@ -94,7 +127,11 @@ func runOp(base registry.Reference, op string, plain bool, in string) []*http.Re
 // resolved reference (independent oracle), "" means correspondence only.
 func opCase(base registry.Reference, op string, plain bool, in, want string) {
 	id := run.NewID()
-	reqs := runOp(base, op, plain, in)
+	variant := run.Rand.Intn(8)
+	if forcedVariant >= 0 {
+		variant = forcedVariant
+	}
+	reqs := runOp(base, op, plain, in, variant)
 	var sb strings.Builder
 	sb.WriteString("REQS")
 	for _, q := range reqs {
@@ -109,8 +146,18 @@ func opCase(base registry.Reference, op string, plain bool, in, want string) {
 	run.Count("op_" + op)
 	if len(reqs) > 0 {
 		run.Nontrivial("O:" + op + p + base.String() + "|" + in)
+		run.Count("op_sent")
+	} else {
+		run.Count("op_refused")
 	}
-	rep := map[string]any{"op": "O", "kind": op, "plain": plain, "registry": base.Registry, "repository": base.Repository, "input": in, "want": want}
+	if want != "" {
+		run.Count("op_ground_truth")
+	}
+	rep := map[string]any{"op": "O", "kind": op, "plain": plain, "registry": base.Registry, "repository": base.Repository, "input": in, "want": want, "variant": strconv.Itoa(variant)}
+	// a reference string naming another path must be refused before anything is sent
+	if baseJudged(base) && namesOtherRepository(base, in) && len(reqs) > 0 {
+		run.OracleFail(id, "repo-foreign-path", fmt.Sprintf("%s(%q) on %v sent %s %s: the input names a path that is not the base repository", op, in, base, reqs[0].Method, reqs[0].URL), rep)
+	}
 	// generic slot shape of every emitted request, whatever the input
 	for _, q := range reqs {
 		segs := strings.Split(q.URL.EscapedPath(), "/")
